@@ -476,11 +476,25 @@ fn one_op(c: &mut Ctx, ch: &Channel, other: &Channel, k: u64) {
                 qn = "q".into();
             }
             let o = qopts(c);
-            c.push(id, "queue_declare_nowait", q_declare(&qn, false, &o, true));
-            let r = ch.queue_declare_nowait(qn.clone(), o);
-            let q: Queue = match c.ok("queue_declare_nowait", r) {
-                Some(q) => q,
-                None => return,
+            let q: Queue = if c.r.chance(1, 3) {
+                // a server-named queue: the handle's operations must carry the name the
+                // broker chose (read from the broker's side, not from the handle)
+                c.push(id, "queue_declare", q_declare("", false, &o, false));
+                let r = ch.queue_declare("", o);
+                let q = match c.ok("queue_declare", r) {
+                    Some(q) => q,
+                    None => return,
+                };
+                qn = c.h.peek(|st| st.reflex.last_declared.get(&id).cloned()).unwrap_or_default();
+                c.res.obs("server_named_queue_handles", 1);
+                q
+            } else {
+                c.push(id, "queue_declare_nowait", q_declare(&qn, false, &o, true));
+                let r = ch.queue_declare_nowait(qn.clone(), o);
+                match c.ok("queue_declare_nowait", r) {
+                    Some(q) => q,
+                    None => return,
+                }
             };
             let xname = c.s();
             let xo = xopts(c);
